@@ -240,7 +240,7 @@ def run_hlist(case: Dict[str, Any]) -> CaseInfo:
 
 @st.composite
 def kamax_case(draw: Any) -> Dict[str, Any]:
-    r = draw(st.sampled_from([1, 2, 3, 5]))
+    r = draw(st.sampled_from([0, 1, 1, 2, 3, 5]))
     return {"kind": "kamax", "proto": draw(st.sampled_from(["h1", "h2", "h2c"])), "r": r,
             "n": r + draw(st.sampled_from([-1, 0, 1, 2])), "pipelined": draw(st.booleans()),
             "sched": draw(st.integers(0, 999))}
@@ -316,6 +316,11 @@ def run_kamax(case: Dict[str, Any]) -> CaseInfo:
         if conn.handler_exc is not None:
             raise Violation("handler_exception", repr(conn.handler_exc), **tag)
         cap = r if h1 else r + 1
+        if r == 0:
+            # a limit of 0 cannot mean "no request at all" (the first one is only counted once
+            # it is there): the first request is served and tells the client to stop; the
+            # upgrade request of an h2c connection is counted without being checked
+            cap = 1 if case["proto"] != "h2c" else 2
         if len(obs.instances) > cap:
             raise Violation("too_many_requests_on_connection", f"{len(obs.instances)} requests "
                             f"served, keep_alive_max_requests={r}", **tag)
@@ -344,7 +349,7 @@ def run_kamax(case: Dict[str, Any]) -> CaseInfo:
             acct = FrameAccounting().decode(data)
             if acct.error:
                 raise Violation("malformed_frames", acct.error, **tag)
-            if n > r and acct.goaway is None:
+            if n >= cap and acct.goaway is None:
                 raise Violation("limit_not_announced", f"{n} requests with limit {r}: no GOAWAY",
                                 **tag)
             # "served": every request the server took on (and, when it said so, covered by the
@@ -357,7 +362,7 @@ def run_kamax(case: Dict[str, Any]) -> CaseInfo:
                                     f"reached the application but its response is "
                                     f"{st_ and (bytes(st_.data), st_.end_stream, st_.rst)}; "
                                     f"limit {r}, goaway {acct.goaway}", **tag,
-                                    which="over_limit" if k >= r else "within_limit")
+                                    which="over_limit" if k >= cap - 1 else "within_limit")
     return CaseInfo(abs(n - r) <= 1, [f"proto={case['proto']}", f"r={r}", f"n={n}"], evals=2)
 
 
